@@ -40,6 +40,7 @@ M_ACTIONS = [
     ("eof", [("eof",)], None),
     ("reset", [("reset",)], None),
     ("states-drain-fails", [("states",)], None),
+    ("states-never-read", [("states",)], None),  # M asks and never reads the answer: the server's drain() for M does not return
     ("well-formed-enq", [("enq", 3)], dict(deps=[], codes=(0,))),
 ]
 
@@ -48,6 +49,7 @@ def scenario(mseq, cores=2):
     tasks = [dict(deps=[], codes=(0,)), dict(deps=[0], codes=(0,)), dict(deps=[], codes=(0,)), dict(deps=[], codes=(0,))]
     mops = []
     fail_drain = False
+    block_drain = False
     start_fail = ()
     for label in mseq:
         _, ops, tdef = next(a for a in M_ACTIONS if a[0] == label)
@@ -59,11 +61,13 @@ def scenario(mseq, cores=2):
                 start_fail = (3,)
         if label == "states-drain-fails":
             fail_drain = True
+        if label == "states-never-read":
+            block_drain = True
         mops += ops
     clients = [
         # two polls for short M sequences: a state change that is not announced between them (stale answers) becomes visible
         dict(name="H", ops=[("enq", 0), ("enq", 1), ("states",)] + ([("states",)] if len(mseq) == 1 and mseq[0].startswith("enq-") else []), healthy=True),
-        dict(name="M", ops=mops, fail_drain=fail_drain),
+        dict(name="M", ops=mops, fail_drain=fail_drain, block_drain=block_drain),
         dict(name="N", ops=[("enq", 2), ("states",)], healthy=True, after="M"),
     ]
     return dict(cores=cores, tasks=tasks, ops=[], clients=clients, via="multi", mseq=list(mseq), **(dict(start_fail=start_fail) if start_fail else {}))
@@ -111,7 +115,7 @@ def run(ctx):
     ctx.pmap(me, "socket_batch", seqs, chunk=max(4, len(seqs) // 16))
     ctx.traces_validated = ctx.acc.extra["traces_validated"]
     ctx.notes.setdefault("coverage_extra", {})["real_socket_sequences"] = len(seqs)
-    ctx.rule = "scenario = sequence of M actions (25-action alphabet) next to fixed H and N scripts; all interleavings of client operations and process exits; non-trivial = distinct scenario"
+    ctx.rule = "scenario = sequence of M actions (26-action alphabet) next to fixed H and N scripts; all interleavings of client operations and process exits; non-trivial = distinct scenario"
     ctx.bound = dict(scenarios=len(scs), m_actions=len(M_ACTIONS), m_len=1 if quick else 2, deviations="1 for |M|<=1, 0 for |M|=2" if quick else "2 for |M|<=1, 1 for |M|=2", cores=2)
     ctx.assumptions = ["connections are asyncio.StreamReader objects fed by the explorer + recording writers (real sockets: real-socket tier)", "shutdown is an administrative request, not misbehaviour"]
 
